@@ -12,30 +12,48 @@ TOPNAMES = {2: "2-clique", 3: "3-clique", 4: "4-clique"}
 
 
 def clean_network(rng, n, sizes, density, names=None):
-    """place cliques of the given sizes on distinct vertices, edge-disjoint (motifs may share vertices).
-    returns (edges [(a,b,top,mid)], jd list of tuples, tops list)"""
-    tops = list(names) if names else [TOPNAMES[s] for s in sizes]
+    """place motifs on distinct vertices, edge-disjoint (motifs may share vertices).  sizes: clique sizes, or "d" for a
+    diamond whose rim edges and chord carry two different topologies (a multi-topology corner).
+    returns (edges [(a,b,top,mid)], jd list of tuples, tops list); jd[v][i] = number of motifs at v with a topology-i edge at v"""
+    tops = []
+    col = []          # per entry of sizes: list of (topology column) it uses
+    for k, s_ in enumerate(sizes):
+        if s_ == "d":
+            col.append([len(tops), len(tops) + 1])
+            tops += ["dia-outer", "dia-inner"]
+        else:
+            col.append([len(tops)])
+            tops.append(names[k] if names else TOPNAMES[s_])
+    if names and "d" not in sizes:
+        tops = list(names)
     used = set()
     edges = []
-    jd = [[0] * len(sizes) for _ in range(n)]
+    jd = [[0] * len(tops) for _ in range(n)]
     mid = 0
     target = int(density * n)
     tries = 0
     while mid < target and tries < 40 * target:
         tries += 1
         k = rng.randrange(len(sizes))
-        s = sizes[k]
-        if s > n:
+        s_ = sizes[k]
+        nv = 4 if s_ == "d" else s_
+        if nv > n:
             continue
-        vs = rng.sample(range(n), s)
-        prs = [tuple(sorted(p)) for p in itertools.combinations(vs, 2)]
+        vs = rng.sample(range(n), nv)
+        if s_ == "d":
+            h1, r1, h2, r2 = vs
+            es = [(h1, r1, 0), (r1, h2, 0), (h2, r2, 0), (r2, h1, 0), (h1, h2, 1)]
+        else:
+            es = [(a, b, 0) for a, b in itertools.combinations(vs, 2)]
+        prs = [tuple(sorted((a, b))) for a, b, _c in es]
         if any(p in used for p in prs):
             continue
         used.update(prs)
-        for a, b in prs:
-            edges.append((a, b, tops[k], mid))
+        for a, b, c in es:
+            edges.append((min(a, b), max(a, b), tops[col[k][c]], mid))
         for v in vs:
-            jd[v][k] += 1
+            for c in {c for a, b, c in es if v in (a, b)}:
+                jd[v][col[k][c]] += 1
         mid += 1
     return edges, [tuple(j) for j in jd], tops
 
